@@ -744,7 +744,14 @@ func solveList(obls []*Obligation, cfg *SolverCfg, base int) {
 							obls[i].Output = fmt.Sprint("engine panic: ", r)
 						}
 					}()
-					solve(obls[i], cfg, base+i)
+					c := cfg
+					if obls[i].LongBudget && cfg.Timeout < 60*time.Second {
+						// obligations of clauses marked "slow": long budget whatever the tier (relock)
+						c2 := *cfg
+						c2.Timeout = 60 * time.Second
+						c = &c2
+					}
+					solve(obls[i], c, base+i)
 				}()
 			}
 		}()
